@@ -177,3 +177,59 @@ def check(ctx):
                 bad = [s for s in st if s in r]
                 ctx.ob("R-ORDER", f.id, "thread-proxy/store-then-unpark", not bad, "the io result is stored before the thread is unparked" if not bad else
                        "the proxy coroutine unparks the thread before storing the io result", f.where(sorted(st)[0]))
+    # (seed C17-4) SplitIo::split re-registers the two halves for ONE direction each (mod_fd: is_read=true -> EPOLLIN only,
+    # false -> EPOLLOUT only). The io data registered for reading must be the one handed to SplitReader::new and the one registered
+    # for writing the one handed to SplitWriter::new: a half registered for the wrong direction never sees its readiness edge
+    def base_of(f, operand):
+        o = simplify(trace_operand(f, operand))
+        for _ in range(4):
+            while o[0] in ("ref", "deref"): o = simplify(o[1])
+            if o[0] == "call" and re.search(r"::as_io_data$|::deref$|::as_ref$|::borrow$", o[2] or ""):
+                t = f.term(o[1])
+                if t["args"]: o = simplify(trace_operand(f, t["args"][0])); continue
+            break
+        return fmt_origin(o)
+    splits = [f for f in ctx.prog.find(r"as may::io::split_io::SplitIo>::split$")]
+    if not splits:
+        ctx.missing("R-SIB", "may::io::split_io::SplitIo::split", "split/half-registered-for-its-direction", "no SplitIo::split implementation found")
+    for f in splits:
+        regs = {}
+        for pt in sorted(an.sites(f, Call(r"may::io::sys::mod_socket", transitive=False), "must")):
+            t = f.node(pt)
+            flag = simplify(trace_operand(f, t["args"][1]))
+            regs.setdefault(flag[1] if flag[0] == "const" else "?", set()).add(base_of(f, t["args"][0]))
+        halves = {}
+        for pt in sorted(an.sites(f, Call(r"may::io::split_io::Split(Reader|Writer)::new", transitive=False), "must")):
+            t = f.node(pt)
+            halves["true" if "SplitReader" in (callee_name(t) or "") else "false"] = base_of(f, t["args"][0])
+        if not regs and "may::io::sys::mod_socket" not in ctx.prog.fns:
+            continue    # not a unix build
+        ok = len(halves) == 2 and regs.get("true") == {halves.get("true")} and regs.get("false") == {halves.get("false")} and "?" not in regs
+        ctx.ob("R-SIB", f.id, "split/half-registered-for-its-direction", ok,
+               "split registers the reader half for reading and the writer half for writing (mod_socket(x, true) on the value given to SplitReader::new, "
+               "mod_socket(y, false) on the value given to SplitWriter::new)" if ok else
+               "%s: mod_socket(.., true) is applied to %s and mod_socket(.., false) to %s, but SplitReader gets %s and SplitWriter gets %s: a half that is registered for the "
+               "other direction only is never resumed when its own direction becomes ready" % (f.id, sorted(regs.get("true", [])), sorted(regs.get("false", [])), halves.get("true"), halves.get("false")), f.where())
+    # (F19) drop order of the socket owners: the selector registration (IoData; its Drop does epoll_ctl(DEL, fd)) must be dropped
+    # BEFORE the value that owns and closes the fd. Fields drop in declaration order. If the fd is closed first its number is free:
+    # a socket created on another thread gets the same number, registers with the same selector, and the late DEL removes the NEW
+    # socket's registration - it never sees a readiness edge again.
+    FD_OWNER = re.compile(r"^(may::io::OptionCell<)?(std::net::|std::os::unix::net::|std::os::fd::|std::fs::File|socket2::|[A-Z]\w{0,2}$)")
+    IO_OWNER = re.compile(r"^(may::io::OptionCell<)?may::io::sys::IoData>?$")
+    drops = set(norm(im.get("self_adt") or "") for im in ctx.prog.impls_of("std::ops::Drop"))
+    n_own = 0
+    for k, a in sorted(ctx.prog.adts.items()):
+        if not k.startswith("may::") or a.get("kind") != "Struct": continue
+        fs = [(fl["n"], fl["t"]) for v in a["variants"] for fl in v["fields"]]
+        io_i = [i for i, (n, t) in enumerate(fs) if IO_OWNER.match(t)]
+        fd_i = [i for i, (n, t) in enumerate(fs) if FD_OWNER.match(t)]
+        if not io_i or not fd_i: continue
+        n_own += 1
+        ok = max(io_i) < min(fd_i) or k in drops
+        ctx.ob("R-SIB", k, "drop-order/deregister-before-close", ok,
+               "%s declares its IoData (`%s`) before the fd owner (`%s`): the fd leaves the selector while it is still open" % (k, fs[io_i[0]][0], fs[fd_i[0]][0]) if ok else
+               "%s declares the fd owner `%s` before its IoData `%s`: the fd is closed first and deregistered afterwards; a socket created in between on another "
+               "thread reuses the fd number and loses its selector registration to the late EPOLL_CTL_DEL (its blocked reads never return)" % (k, fs[fd_i[0]][0], fs[io_i[0]][0]),
+               "%s:%s" % (a.get("file"), a.get("line")))
+    if n_own < 6:
+        ctx.missing("R-SIB", "may::io::sys::IoData", "drop-order/deregister-before-close", "expected >= 6 structs owning an IoData and an fd (TcpStream, TcpListener, UdpSocket, CoIo, 2 connectors), found %d" % n_own)
